@@ -418,7 +418,21 @@ func (sdb *DbSqlite) initJwtKey() error {
 	return nil
 }
 
+// checkPoints returns an error if any of the points cannot be stored
+func checkPoints(points data.Points) error {
+	for _, p := range points {
+		if math.IsNaN(p.Value) {
+			return fmt.Errorf("point %v:%v value is NaN, which cannot be stored", p.Type, p.Key)
+		}
+	}
+	return nil
+}
+
 func (sdb *DbSqlite) nodePoints(id string, points data.Points) error {
+	if err := checkPoints(points); err != nil {
+		return err
+	}
+
 	points.Collapse()
 
 	sdb.writeLock.Lock()
@@ -565,6 +579,10 @@ NextPin:
 }
 
 func (sdb *DbSqlite) edgePoints(nodeID, parentID string, points data.Points) error {
+	if err := checkPoints(points); err != nil {
+		return err
+	}
+
 	points.Collapse()
 
 	if nodeID == parentID {
